@@ -40,7 +40,10 @@ def app_stop_seq(config, app_name):
 
 
 
-class StopRequests(Observer):
+from oracles.cluster import _FalseFailureWatch  # noqa: E402
+
+
+class StopRequests(Observer, _FalseFailureWatch):
     prop = 'C09'
 
     def __init__(self):
@@ -57,6 +60,7 @@ class StopRequests(Observer):
         self.dropped_state = {}
         self.ending_view = {}
         self.ending_view_t = {}
+        self._watch_init()
 
     def _probe(self, name):
         self.probes[name] = self.probes.get(name, 0) + 1
@@ -193,6 +197,7 @@ class StopRequests(Observer):
                     self._check_master_final(sim, inst)
 
     def after_event(self, sim, inst, kind):
+        self._watch(sim, inst)
         key = (inst.nick, inst.incarnation)
         reqs = self.handler_reqs.pop(key, None)
         if not reqs or not inst.alive or inst.supvisors is None:
@@ -331,6 +336,18 @@ class StopRequests(Observer):
                           and r.get('outcome') in ('ok', 'fault') and r['t_us'] >= self.ending['t_us'] for r in sim.wire)
             if not relayed:
                 self._probe('order_lost_with_crashed_relay')
+                return
+        # a live member declared lost by another live member during the ending phase (network slower than
+        # inactivity_ticks allows, no injected cut): the Master no longer addresses the members it does not see RUNNING,
+        # the members that lost the Master go back to ELECTION; the statement covers the loss of a non-Master only
+        members = {n for n, _i in (self.alive_at_order or ())}
+        idents = {sim.instances[n].identifier for n in members if n in sim.instances}
+        if any(self.ending['t_us'] - 30 * US <= t <= self.ending['t_us'] + 150 * US and o in members and p in idents
+               for t, o, p in self.false_failures) and not sim.cuts:
+            fired_cuts = [1 for _t, item, fired in self.run.applied if fired and item['kind'] == 'partition'
+                          and self.ending['t_us'] - 60 * US <= _t <= self.ending['t_us'] + 150 * US]
+            if not fired_cuts:
+                self._probe('ending_disturbed_by_false_failure_skipped')
                 return
         # exactly one order per Supervisor incarnation
         count = {}
